@@ -35,6 +35,9 @@ def load_findings():
 
 def build_harness():
     """cargo build the harness; this recompiles ferrous from /repo's working tree with hooks on."""
+    # development aid: tools/seedrun.py patches /repo for a moment; other checks wait with their build until it is undone
+    while os.path.exists('/tmp/ferrous-seedrun.lock') and not os.environ.get('VERIF_SEEDRUN'):
+        time.sleep(1.0)
     t = time.time()
     lock = os.path.join(VERIF, 'harness', 'Cargo.lock')
     if not os.path.exists(lock):
